@@ -838,6 +838,69 @@ Proof.
   split; [cbn [length Nat.sub Nat.mul Nat.add INR]; pose proof ux_small; lra|eexists; reflexivity].
 Qed.
 
+(* ---- the same at the PRIMITIVE-FLOAT instance (IEEE binary64, u = 2^-53), through Flocq: no hypothesis about rounding
+   remains; the result must be finite and no product acc * x of the Horner loop may underflow ([horner_partial p x k] is
+   the accumulator after k steps, a float expression in p and x) ---- *)
+From Coq Require Import Floats.
+From OV Require Import Inst.FloatInst Proofs.ComplexRound Proofs.RoundDotFloat Proofs.RoundPolyFloat.
+
+Theorem peval_backward_error_float : forall (p : list PrimFloat.float) (x r : PrimFloat.float),
+  peval (A := AF) p x = Ok r -> ffinite r ->
+  (forall k, (k < length p - 1)%nat -> no_underflow (FR (horner_partial p x k) * FR x)%R) ->
+  (INR (2 * (length p - 1)) * u64 < 1)%R ->
+  exists th : nat -> R,
+    (forall i, (i < length p)%nat -> (Rabs (th i) <= g64 (2 * (length p - 1)))%R) /\
+    FR r = Rsum (length p) (fun i => (FR (nth i p 0%float) * (1 + th i) * FR x ^ i)%R).
+Proof. exact peval_backward_error_float_lemma. Qed.
+Check peval_backward_error_float : forall (p : list PrimFloat.float) (x r : PrimFloat.float),
+  peval (A := AF) p x = Ok r -> ffinite r ->
+  (forall k, (k < length p - 1)%nat -> no_underflow (FR (horner_partial p x k) * FR x)%R) ->
+  (INR (2 * (length p - 1)) * u64 < 1)%R ->
+  exists th : nat -> R,
+    (forall i, (i < length p)%nat -> (Rabs (th i) <= g64 (2 * (length p - 1)))%R) /\
+    FR r = Rsum (length p) (fun i => (FR (nth i p 0%float) * (1 + th i) * FR x ^ i)%R).
+Print Assumptions peval_backward_error_float.
+(* 1 + c x + 3 x^2 at x = 0.5 with c the double nearest 0.1: the sum 1.5 + c is inexact *)
+Example peval_backward_error_float_nonvacuous :
+  let p := [1%float; 0x1.999999999999ap-4%float; 3%float] in let x := 0.5%float in
+  (exists r, peval (A := AF) p x = Ok r /\ ffinite r) /\
+  (forall k, (k < length p - 1)%nat -> no_underflow (FR (horner_partial p x k) * FR x)%R) /\
+  (INR (2 * (length p - 1)) * u64 < 1)%R.
+Proof.
+  cbn zeta. split; [eexists; split; [reflexivity|apply ffinite_SF; reflexivity]|]. split.
+  - assert (Eh : FR 0.5%float = (/ 2)%R) by fr_eval. assert (E3 : FR 3%float = 3%R) by fr_eval.
+    assert (B : (1 <= FR (3 * 0.5 + 0x1.999999999999ap-4)%float <= 2)%R) by (split; fr_eval).
+    intros [|[|k]] Hk; cbn in Hk; try lia; apply no_underflow_ge_small.
+    + change (horner_partial [1%float; 0x1.999999999999ap-4%float; 3%float] 0.5%float 0) with 3%float.
+      rewrite Eh, E3, Rabs_pos_eq; lra.
+    + change (horner_partial [1%float; 0x1.999999999999ap-4%float; 3%float] 0.5%float 1)
+        with (3 * 0.5 + 0x1.999999999999ap-4)%float.
+      rewrite Eh, Rabs_pos_eq; lra.
+  - cbn [length Nat.sub Nat.mul Nat.add INR]. pose proof u64_small. lra.
+Qed.
+
+Theorem peval_forward_error_float : forall (p : list PrimFloat.float) (x r : PrimFloat.float),
+  peval (A := AF) p x = Ok r -> ffinite r ->
+  (forall k, (k < length p - 1)%nat -> no_underflow (FR (horner_partial p x k) * FR x)%R) ->
+  (INR (2 * (length p - 1)) * u64 < 1)%R ->
+  (Rabs (FR r - Rsum (length p) (fun i => FR (nth i p 0%float) * FR x ^ i))
+     <= g64 (2 * (length p - 1)) * Rsum (length p) (fun i => Rabs (FR (nth i p 0%float)) * Rabs (FR x) ^ i))%R.
+Proof. exact peval_forward_error_float_lemma. Qed.
+Check peval_forward_error_float : forall (p : list PrimFloat.float) (x r : PrimFloat.float),
+  peval (A := AF) p x = Ok r -> ffinite r ->
+  (forall k, (k < length p - 1)%nat -> no_underflow (FR (horner_partial p x k) * FR x)%R) ->
+  (INR (2 * (length p - 1)) * u64 < 1)%R ->
+  (Rabs (FR r - Rsum (length p) (fun i => FR (nth i p 0%float) * FR x ^ i))
+     <= g64 (2 * (length p - 1)) * Rsum (length p) (fun i => Rabs (FR (nth i p 0%float)) * Rabs (FR x) ^ i))%R.
+Print Assumptions peval_forward_error_float.
+Example peval_forward_error_float_nonvacuous :   (* exactly representable data: 1 + 2x + 3x^2 at 0.5 *)
+  let p := [1%float; 2%float; 3%float] in let x := 0.5%float in
+  (exists r, peval (A := AF) p x = Ok r /\ ffinite r) /\ (INR (2 * (length p - 1)) * u64 < 1)%R.
+Proof.
+  cbn zeta. split; [eexists; split; [reflexivity|apply ffinite_SF; reflexivity]|].
+  cbn [length Nat.sub Nat.mul Nat.add INR]. pose proof u64_small. lra.
+Qed.
+
 (* ---------- Props/pending/C15_round.v.txt ---------- *)
 (* ======================================================================================================
    C15 (vectors), rounding half -- package round.  Append to Props/C15.v.
